@@ -67,11 +67,19 @@ class HistoryProperty(Property):
                     yield self._with(case, ops=new_ops)
         # 4. simplify the spec (candidates must keep the generator's invariants: they answer soundness hazards)
         for cand in self._spec_candidates(case):
-            if gen.spec_ok(cand["spec"]):
+            if self.spec_valid(cand["spec"]):
                 yield cand
 
     def _reindex(self, case, cand_ops, start, size):
         return copy.deepcopy(cand_ops)
+
+    REQUIRED_CACHE = None  # e.g. "recording": every dataset of a (shrunk) spec must keep this backend kind
+
+    def spec_valid(self, spec):
+        if self.REQUIRED_CACHE is not None:
+            if any(n["k"] == "dataset" and n.get("cache") != self.REQUIRED_CACHE for n in spec["nodes"]):
+                return False
+        return gen.spec_ok(spec)
 
     @staticmethod
     def _with(case, **kw):
